@@ -191,7 +191,20 @@ def gen_tree(rng, pl, tier="quick", layout=None, allow_single=True, min_files=1,
         files.append(["only", pick_size(rng, pl, maxp) or 1, cs])
     if nonempty_total and sum(f[1] for f in files) == 0:
         files[rng.randrange(len(files))][1] = rng.choice([1, pl - 1, pl, pl + 1])
-    return {"name": name, "single": False, "files": files, "dirs": dirs, "layout": layout}
+    links = []
+    if rng.random() < 0.08 and layout not in ("many",):
+        # hard links: several ordinary directory entries for one inode (regular files, not symlinks)
+        existing = {f[0] for f in files}
+        for _ in range(rng.choice([1, 1, 2])):
+            tgt = rng.choice(files)
+            d = os.path.dirname(rng.choice(files)[0])
+            newrel = (d + "/" if d else "") + rng.choice(["hl-", "zz-hl-", "0hl-"]) + os.path.basename(tgt[0])
+            if newrel in existing or any(e.startswith(newrel + "/") for e in existing):
+                continue
+            existing.add(newrel)
+            files.append([newrel, tgt[1], tgt[2]])
+            links.append([newrel, tgt[0]])
+    return {"name": name, "single": False, "files": files, "dirs": dirs, "layout": layout, "links": links}
 
 
 def tree_root(base, tree):
